@@ -1,8 +1,10 @@
 """C11 — option handling: Lean theorems about the passes of the model (unknown / required / bad values rejected, optional absent, defaults
 injected, bool literals) + correspondence with OptionsHandler::ProcessUserInput on every shipped xtp calculator description (links resolved by the
 real code) with generated user trees, Property XML print/load round trips and typed-access literals."""
-import glob, os
+import glob, os, sys
 import vlib, vbuild
+sys.path.insert(0, os.path.join(vlib.VERIF, "tools", "translate"))
+import tr_c11 as tr
 
 PROP = "C11"
 HARNESS = os.path.join(vlib.VERIF, "harness", "c11.cc")
@@ -14,7 +16,15 @@ def build():
 
 def run(tier, seed, replay=None):
     ck = vlib.Check(PROP, tier, seed)
+    tr_err = None
+    try:
+        ck.extra["translator"] = tr.translate()   # Gen/XmlEscape.lean from XmlEscape in property.cc
+    except Exception as e:
+        tr_err = "translator could not read XmlEscape in property.cc: %r" % (e,)
     ob = vlib.lean_obligations(PROP, thorough=(tier == "thorough"))
+    if tr_err:
+        ob["ok"] = False
+        ob["failures"].append(tr_err)
     try:
         exe = build()
     except vbuild.BuildError as e:
@@ -46,9 +56,9 @@ def run(tier, seed, replay=None):
         rule="every shipped calculator description (27 files + linked sub-packages, loaded and link-resolved by the real code) twice with sparse user "
              "trees, then random: user trees generated from the resolved description (subsets of leaves, list multiplicities 0..3, duplicated options, "
              "valid and invalid values per declared choice type, undeclared names, content in unchecked sections, missing REQUIRED options), "
-             "random property trees over an alphabet with XML metacharacters printed as XML and loaded again, bool/int/float literals. "
+             "random property trees over an alphabet with XML metacharacters printed as XML and loaded again (the written file is also compared character by character with the writer model printXML over the generated escape tables), bool/int/float literals. "
              "result trees compared node by node (names, order, sorted attributes, values); errors compared by kind and named option",
-        assumptions=["expat and boost::lexical_cast are external: XML round trip is judged on the implementation's output only (no Lean model of the XML text layer)",
+        assumptions=["expat and boost::lexical_cast are external: the element structure of the XML round trip is judged on the implementation's output; the text layer (escaping of values and attribute values) is a theorem about the generated tables, with the XML entity rules stated in Model/C11X (unescape, attrValue)",
                      "the merge of list sections and 'nothing else' are tied by the correspondence (whole result tree compared), not by a theorem",
                      "additional_choices_ is empty (as for the shipped calculators)"],
         trivial_tags=())
